@@ -42,6 +42,7 @@ def instances(tier):
         out.append({"kind": "unit", "gen": g, "periods": 2 if tier == "quick" else 3, "silent_from": 9})
         out.append({"kind": "matcher", "gen": g})
         out.append({"kind": "outage", "gen": g})
+        out.append({"kind": "outage", "gen": g, "held": 10})        # ten commands are held for the dead link when the heartbeat falls due
         out.append({"kind": "second_session", "gen": g})
     # an AirTouch 5 without zones (the console echoes the zone requests): the heartbeat runs there as well
     out.append({"kind": "api", "gen": 5, "periods": n, "silent_from": 0, "zero_zones": True})
@@ -288,6 +289,14 @@ def _outage(ctx, p):
 
         con._answer = answer
         rig.loop.vt_call_at(t_drop, lambda: rig.net.current().reset() if rig.net.current() else None)
+        if p.get("held"):
+            async def cmds():
+                for i in range(p["held"]):
+                    try:
+                        await rig.ac(0).set_target_temperature(20 + i % 5)
+                    except Exception:  # noqa: BLE001
+                        pass
+            rig.loop.vt_call_at(295.0, lambda: rig.spawn(cmds()))
         rig.run(1000.0)
         closes = [t for (ev, idx, t) in rig.net.events if ev == "close"]
         # closes: the outage itself (at t_drop), then exactly one heartbeat reset at 600 + d + 330
